@@ -12,6 +12,7 @@ RULE = ("unit generators gen_C16 (block counts 1..=20 per call, arbitrary chaini
         "C05/C06/C08/C10/C11 workloads, all run through the four feature builds; non-trivial = non-empty data; distinct = distinct case lines")
 TRUSTED = ["hand-written Lean models (lean/CxVerif/Impl, Spec) tied to the code by the correspondence run",
            "which machine instructions a target-feature build selects is observed on the real binaries, not proved"]
+PROOF_SCOPE = 'partial by nature: the lane models / translated intrinsic code are proved equal to the portable reference for every input; that a `-C target-feature` build executes those instructions, and that aligned loads do not fault, is observed on four harness builds'
 ASSUMPTIONS = ["host CPU supports sse4.1, avx, avx2 (checked at run time via `cxharness features`)"]
 nontrivial = _auto.default_nontrivial
 REUSE = {"C01": 6, "C02": 40, "C03": 3, "C04": 3, "C05": 10, "C06": 10, "C08": 6, "C10": 6, "C11": 4}
